@@ -11,11 +11,45 @@ package datadog
 //@   requires d != nil && cb != nil && metrics != nil
 //@   ensures  calls(cb) == 0 && calls(go1) == 1
 //@   modifies everything
+// The collector answers only when every batch has reported or the context is done (a batch worker left behind
+// would keep its request slot for ever and starve the following flushes).
 //@ func (*Client).SendMetricsAsync$2
 //@   requires cb != nil
-//@   loop 1 invariant calls(cb) == 0 && cb != nil
+//@   callsite cb requires received(results) >= old(received(results)) + counter || calls(Err) >= 1
+//@   loop 1 invariant calls(cb) == 0 && cb != nil && calls(Err) == 0 && received(results) == old(received(results)) + c
 //@   ensures  calls(cb) == 1
 //@   modifies everything
 //@ func (*Client).processMetrics
 //@   trusted
+//@   modifies everything
+
+// ---- flush.go (C17): every series added is handed to the callback exactly once -----------------------------------
+// The batch callback may do anything except reach into the flush object (ownership assumption).
+//@ functype batchCB(ts) sig func(*timeSeries)
+//@   requires ts != nil
+//@   modifies everything
+//@   preserves datadog.flush
+// addMetric appends exactly one series, carrying the name, host, tags, type and interval it was given, to the open
+// batch and leaves the series already in it alone.
+//@ func (*flush).addMetric
+//@   floats real
+//@   requires f != nil && f.ts != nil
+//@   ensures  f.ts == old(f.ts) && len(f.ts.Series) == old(len(f.ts.Series)) + 1
+//@   ensures  [content] f.ts.Series[len(f.ts.Series) - 1].Metric == name && f.ts.Series[len(f.ts.Series) - 1].Host == source && f.ts.Series[len(f.ts.Series) - 1].Tags == tags && f.ts.Series[len(f.ts.Series) - 1].Type == metricType && f.ts.Series[len(f.ts.Series) - 1].Interval == f.flushIntervalSec
+//@   ensures  [content] forall i int :: 0 <= i && i < old(len(f.ts.Series)) ==> f.ts.Series[i] == old(f.ts.Series[i])
+//@   modifies f.ts.Series, allElems(metric)
+// maybeFlush either leaves the open batch as it is, or hands exactly that batch to the callback once and opens a new,
+// empty batch that shares no storage with the one handed off (which is serialised later, on another goroutine).
+//@ func (*flush).maybeFlush
+//@   requires f != nil && f.ts != nil && f.cb != nil
+//@   callsite cb requires arg0 == f.ts && calls(cb) == 0
+//@   ensures  calls(cb) <= 1 && f.ts != nil
+//@   ensures  [handoff] calls(cb) == 1 ==> fresh(f.ts) && len(f.ts.Series) == 0 && fresh(f.ts.Series)
+//@   ensures  [handoff] calls(cb) == 0 ==> f.ts == old(f.ts) && f.ts.Series == old(f.ts.Series)
+//@   modifies everything
+// finish hands the open batch over exactly once if it holds anything, and not at all if it is empty.
+//@ func (*flush).finish
+//@   requires f != nil && f.ts != nil && f.cb != nil
+//@   callsite cb requires arg0 == f.ts && calls(cb) == 0
+//@   ensures  [handoff] calls(cb) == ite(old(len(f.ts.Series)) > 0, 1, 0)
 //@   modifies everything
